@@ -381,6 +381,12 @@ func runC02(c *eng.Ctx) {
 			core.MkReg("MR_S0S4", godi.Scoped, core.WithGroup("h")),
 			core.MkReg("Leaf_K0_a", godi.Scoped, core.WithGroup("g")),
 		}}, []core.Op{{Kind: core.OpGetGroup, Type: "K0", Group: "g"}, {Kind: core.OpGet, Type: "K1"}, {Kind: core.OpGetGroup, Type: "S0", Group: "h"}, {Kind: core.OpGetGroup, Type: "S4", Group: "h"}, {Kind: core.OpGet, Type: "K1", Generic: true}}},
+		// one constructor registered under SEVERAL aliases (plain and keyed): goroutines that ask for
+		// different aliases of it at the same moment still get the one instance of the one invocation
+		{"several-aliases", &core.Spec{Regs: []core.Reg{
+			core.MkReg("Leaf_K0_a", godi.Scoped, core.WithAs("IK0", "IA")),
+			core.MkReg("Leaf_S3_a", godi.Scoped, core.WithAs("IS3", "IB"), core.WithName("k")),
+		}}, []core.Op{{Kind: core.OpGet, Type: "IK0"}, {Kind: core.OpGet, Type: "IA"}, {Kind: core.OpGet, Type: "IS3", Key: "k"}, {Kind: core.OpGet, Type: "IB", Key: "k"}, {Kind: core.OpGet, Type: "IA", Generic: true}}},
 	}
 	// drop fixtures the model does not consider buildable (keeps the fixture list honest)
 	var fx []int
